@@ -44,13 +44,28 @@ type kv struct {
 	v val
 }
 
+// runMin: a maximal run of at least this many entries with consecutive keys and one value is written `a..b=v` in a sorted
+// listing (a lossless abbreviation: the listing of a table of 1025 or 2048 entries stays readable; lean/Driver/C14.lean reads
+// and writes the same form)
+const runMin = 8
+
 func listStr(l []kv, sorted bool) string {
 	if sorted {
 		sort.Slice(l, func(i, j int) bool { return l[i].k < l[j].k })
 	}
-	p := make([]string, len(l))
-	for i, e := range l {
-		p[i] = fmt.Sprintf("%d=%s", e.k, e.v)
+	var p []string
+	for i := 0; i < len(l); {
+		j := i + 1
+		for sorted && j < len(l) && l[j].k == l[j-1].k+1 && l[j].v == l[i].v {
+			j++
+		}
+		if j-i >= runMin {
+			p = append(p, fmt.Sprintf("%d..%d=%s", l[i].k, l[j-1].k, l[i].v))
+			i = j
+			continue
+		}
+		p = append(p, fmt.Sprintf("%d=%s", l[i].k, l[i].v))
+		i++
 	}
 	return "[" + strings.Join(p, ",") + "]"
 }
@@ -231,6 +246,13 @@ func (o *mapObj) exec(f []string, e *env) string {
 	case "tick":
 		time.Sleep(time.Duration(atoi(f[1])) * time.Second)
 		return "-"
+	case "fill":
+		// fill:<n>:<base>:<v> = n calls of Store, keys base … base+n-1, one value: the table of a connection that has been busy
+		// for a while (1024 / 1025 / 2048 entries and more); in the history the n calls are written as this one token
+		for i, n, base, v := 0, atoi(f[1]), atoi(f[2]), parseVal(f[3]).id; i < n; i++ {
+			m.Store(base+i, v)
+		}
+		return "-"
 	}
 	panic("bad map op " + strings.Join(f, ":"))
 }
@@ -319,6 +341,12 @@ func (o *cacheObj) exec(f []string, e *env) string {
 		return "d=" + listStr(l, true)
 	case "tick":
 		time.Sleep(time.Duration(atoi(f[1])) * time.Second)
+		return "-"
+	case "fill":
+		// fill:<n>:<base>:<id>[@<vu>] = n calls of Store (see the map's fill)
+		for i, n, base := 0, atoi(f[1]), atoi(f[2]); i < n; i++ {
+			c.Store(base+i, o.elem(parseVal(f[3]), e))
+		}
 		return "-"
 	}
 	panic("bad cache op " + strings.Join(f, ":"))
